@@ -429,6 +429,7 @@ impl H2Peer {
                     s.pending_grant = 0;
                 } else if now >= t && s.pending_grant > 0 {
                     let g = s.pending_grant.min(s.rplan.h2_grant.max(1) as u64);
+                    self.sh.add_frames(s.run, 1);
                     self.ctl.push_back(Seg::meta(Frame::window_update(s.sid, g as u32).encode()));
                     s.pending_grant -= g;
                     s.grant_at = if s.pending_grant > 0 { Some(now + Duration::from_micros(s.rplan.h2_grant_delay_us)) } else { None };
@@ -501,6 +502,7 @@ impl H2Peer {
             let seg = Seg { bytes, pay_start: 9 + if s.plan.h2_pad { 1 } else { 0 }, pay_len: want as usize, pay_off: s.off, owner: i };
             s.off += want;
             let used = want as i64 + overhead as i64;
+            self.sh.add_frames(st.run, 1);
             st.send_window -= used;
             self.conn_send_window -= used;
             if end_here {
